@@ -102,6 +102,11 @@ func variants() []Variant {
 		{Name: "gogoplain", Runtime: "gogo", MsgPlugin: "protoc-gen-gogo", MsgParam: wktGogo, Plain: true, CoreOnly: true},
 		{Name: "legacyplain", Runtime: "legacy", MsgPlugin: "protoc-gen-gogo", Plain: true, CoreOnly: true},
 	}
+	for i := range vs {
+		if !vs[i].Plain {
+			vs[i].FMParam = withSpecialNames(vs[i])
+		}
+	}
 	if *tier == "thorough" {
 		for i := range vs {
 			if !vs[i].Plain {
@@ -114,12 +119,36 @@ func variants() []Variant {
 
 func ctxFor(v Variant) *schema.Ctx {
 	return &schema.Ctx{
-		ProtoPrefix: "vf." + v.Name,
-		GoPrefix:    "verif/harness/gencode/gen/" + v.Name,
-		PathPrefix:  "vf/" + v.Name,
-		Proto3Opt:   v.Runtime == "gv2" || v.Runtime == "gv1gen",
-		GogoWKT:     v.Runtime == "gogo",
+		ProtoPrefix:   "vf." + v.Name,
+		GoPrefix:      "verif/harness/gencode/gen/" + v.Name,
+		PathPrefix:    "vf/" + v.Name,
+		Proto3Opt:     v.Runtime == "gv2" || v.Runtime == "gv1gen",
+		GogoWKT:       v.Runtime == "gogo",
+		SpecialFields: specialFields(v),
 	}
+}
+
+// specialFields: field names that the message generator of the variant renames (Go name + "_"): protoc-gen-gogo
+// reserves the names of the methods it may generate, protoc-gen-go those of its own methods.  (A field called
+// size / marshal / unmarshal cannot be combined with fast-marshal code on the Google runtimes at all: the
+// struct field and the generated method would share a name.)
+func specialFields(v Variant) []string {
+	if v.Plain {
+		return nil
+	}
+	if v.Runtime == "gogo" || v.Runtime == "legacy" {
+		return []string{"size", "marshal", "unmarshal", "reset", "string", "descriptor"}
+	}
+	return []string{"reset", "string", "descriptor"}
+}
+
+// withSpecialNames appends one specialname option per renamed field (the documented way to give several).
+func withSpecialNames(v Variant) string {
+	p := v.FMParam
+	for _, n := range specialFields(v) {
+		p += ",specialname=" + strings.ToUpper(n[:1]) + n[1:]
+	}
+	return p
 }
 
 func wktFiles() []*descriptorpb.FileDescriptorProto {
